@@ -1712,3 +1712,74 @@ Theorem monotone_refuted_empty_publish :
   exists s, run (init (mkCfg 0 0 0 1)) empty_publish_witness = Some s /\
             s_pubs s = [2; 3; 2] /\ s_pcs s 1%nat = PRet (mkBatch 1 0 1 (one_raw 2)) true.
 Proof. eexists. split; [vm_compute; reflexivity|]. split; reflexivity. Qed.
+
+
+(* ------------------------------------------------------------------ C06: offsets shown to consumers *)
+(* handleFetch (flushOnAck mode) bounds what it serves by the metadata store's next_offset
+   read at fetch time: the offsets a consumer can have been shown in state s are those
+   below [fetch_limit s]. *)
+Definition fetch_limit (s : state) : Z := s_store s.
+
+Lemma run_runG evs : forall s ov s', run s evs = Some s' -> exists ov', runG s ov evs = Some (s', ov').
+Proof.
+  induction evs as [|e evs IH]; intros s ov s' H; cbn [run runG] in *.
+  - inversion H; subst. eauto.
+  - destruct (step s e) as [s1|]; [|discriminate]. eauto.
+Qed.
+
+Lemma step_pubs_incl s e s' : step s e = Some s' -> incl (s_pubs s) (s_pubs s').
+Proof.
+  intros H v Hv. destruct e; cbn [step] in H.
+  all: try (destruct (negb (s_live s)); [discriminate|]).
+  all: try (destruct (s_live s); [discriminate|]).
+  - destruct (s_pcs s t); try discriminate. destruct (parse_hdr raw) as [[? ?]|]; [|inversion H; subst; exact Hv].
+    destruct (should_flush _ _ && _); inversion H; subst; exact Hv.
+  - destruct (s_pcs s t); try discriminate. destruct (s_owner s); try discriminate.
+    destruct (s_buf s); [destruct (s_clast s)|]; inversion H; subst; exact Hv.
+  - destruct (s_pcs s t) as [| |? ? sg ?| |]; try discriminate. destruct sg; try discriminate. inversion H; subst; exact Hv.
+  - destruct (s_pcs s t) as [| |? ? ? ix| |]; try discriminate. destruct ix; try discriminate. inversion H; subst; exact Hv.
+  - destruct (s_pcs s t) as [| |? ? sg ix| |]; try discriminate. destruct sg; try discriminate. destruct ix; try discriminate. inversion H; subst; exact Hv.
+  - destruct (s_pcs s t) as [| |? ? sg ix| |]; try discriminate. destruct sg, ix; try discriminate; inversion H; subst; exact Hv.
+  - destruct (s_pcs s t); try discriminate. inversion H; subst; cbn. destruct ok; [now right|exact Hv].
+  - destruct (s_pcs s t) as [| | | |? ok]; try discriminate. inversion H; subst; exact Hv.
+  - inversion H; subst; exact Hv.
+  - destruct (restore _ _ _) as [| |l]; inversion H; subst; cbn; try exact Hv.
+    destruct ((s_store s <=? l) && sync_ok); [now right|exact Hv].
+  - inversion H; subst; exact Hv.
+Qed.
+
+Lemma run_pubs_incl evs : forall s s', run s evs = Some s' -> incl (s_pubs s) (s_pubs s').
+Proof.
+  induction evs as [|e evs IH]; intros s s' H; cbn [run] in H.
+  - inversion H; subst. apply incl_refl.
+  - destruct (step s e) as [s1|] eqn:E; [|discriminate].
+    eapply incl_tran; [eapply step_pubs_incl; eauto|eapply IH; eauto].
+Qed.
+
+Lemma store_is_last_pub c evs s : run (init c) evs = Some s -> s_store s = hd 0 (s_pubs s).
+Proof.
+  intros H. destruct (run_runG _ _ (fun _ => false) _ H) as (ov & HG).
+  destruct (runG_inv _ _ _ _ _ (init_inv c) (init_ginv c) HG) as (_ & G).
+  unfold GInv' in G. destruct (s_live s); [symmetry; apply (gi_hd _ _ G)|symmetry; exact G].
+Qed.
+
+(* every offset a consumer was ever shown (below the fetch limit of some earlier state s1)
+   was, at that time, held by S3 segments with an index, and in every later live state --
+   after any crashes and restarts -- lies below the next offset to be assigned: it is
+   never given to another record. *)
+Theorem served_never_reassigned c evs1 evs2 s1 s :
+  run (init c) evs1 = Some s1 -> run s1 evs2 = Some s -> s_live s = true ->
+  fetch_limit s1 <= s3_end s1 /\ fetch_limit s1 <= s_next s.
+Proof.
+  intros H1 H2 Lv. split; [eapply not_ahead; eauto|]. unfold fetch_limit.
+  assert (run (init c) (evs1 ++ evs2) = Some s) as H.
+  { clear -H1 H2. revert H1. generalize (init c). induction evs1 as [|e r IH]; intros s0 H1; cbn [app run] in *.
+    - inversion H1; subst. exact H2.
+    - destruct (step s0 e); [|discriminate]. apply IH. exact H1. }
+  rewrite (store_is_last_pub _ _ _ H1).
+  destruct (no_reuse _ _ _ H Lv) as (_ & P & _).
+  destruct (s_pubs s1) as [|v r] eqn:E; cbn [hd].
+  - pose proof (reach_inv _ _ _ H) as I. unfold Inv in I. rewrite Lv in I. destruct I as (h & I).
+    pose proof (li_hpos _ _ I). pose proof (chain_le _ _ _ (li_pend _ _ I)). lia.
+  - apply P. eapply run_pubs_incl; [exact H2|]. rewrite E. now left.
+Qed.
